@@ -20,15 +20,15 @@ Proved here.  General (every table): `bracket_holds`, `lockset_sound`, `lockset_
 program lie in the concurrent phase); `conforms_of_scoped` (threads whose own events are RAII-scoped
 conform to the table — the operational meaning of "syntactically inside a lock scope").
 For the table of the current tree (obligations re-evaluated by the kernel on every regeneration):
-  * the four lifecycle members of `FilteringAlgorithm` (and every other member of that class) are
-    race free (`table_disciplined_lifecycle`, `race_free_lifecycle`, `…_program_lifecycle`, `…_scoped`);
-  * every member of every library class other than the six `skip_` flags is race free
-    (`table_disciplined_partial`, `race_free_partial`, `race_free_program_partial`);
-  * the full-strength statement `RaceFree table` is equivalent to "`claimedUndisciplined` is empty"
-    (`race_free_iff`), and it is *false* on the current tree: each flag in `claimedUndisciplined` has a
-    racy interleaving (`race_witness_exact`, `…_counterexample` theorems in the generated file) — the
-    known finding of C10.  Statements whose polarity would flip when a flag is fixed are deliberately
-    not hard obligations (an improvement must not alarm).
+  * `table_disciplined`: every data member of every library class obeys the discipline (must hold;
+    `RaceTable.claimed_empty` by `decide`), in particular the lifecycle members of `FilteringAlgorithm`
+    (`table_disciplined_lifecycle`, `race_free_lifecycle`, `…_program_lifecycle`, `…_scoped`) and the six
+    skip flags, which are `AtomicFlag`s since c5f4aef (shared location `AtomicFlag::value_`, atomic);
+  * **`race_free : RaceFree table`** — the full-strength statement — with its whole-program form
+    `race_free_program` and the RAII form `race_free_scoped`;
+  * polarity-independent companions, true for whatever the code says: `table_undisciplined_exact`,
+    `race_witness_exact` (a member has a racy interleaving iff the regenerated file lists it; the file
+    then also carries a `…_counterexample` theorem per member), `race_free_iff`.
 
 TRUSTED (not proved):
   1. the reduction of the C++ memory model to sequentially consistent interleavings with
@@ -116,14 +116,15 @@ theorem table_disciplined_lifecycle :
   intro h
   exact claimed_not_lifecycle f ((not_fieldOK_iff f).1 h) hf
 
-/-- **must hold**: every data member of every library class, except the six known skip flags,
-    obeys the discipline (a new undisciplined member breaks this obligation) -/
-theorem table_disciplined_partial :
-    ∀ f, f ∉ table.fieldIds skipFlags → FieldOK table f := by
-  intro f hf
+/-- **must hold**: every data member of every library class (and every datum with static storage)
+    obeys the discipline — a new undisciplined member breaks this obligation -/
+theorem table_disciplined : ∀ f, FieldOK table f := by
+  intro f
   apply Classical.byContradiction
   intro h
-  exact hf (claimed_sub_skipFlags f ((not_fieldOK_iff f).1 h))
+  have := (not_fieldOK_iff f).1 h
+  rw [claimed_empty] at this
+  cases this
 
 /-- the members violating the discipline are exactly those the regenerated file lists -/
 theorem table_undisciplined_exact (f : Nat) : ¬ FieldOK table f ↔ f ∈ claimedUndisciplined :=
@@ -141,25 +142,26 @@ theorem race_free_program_lifecycle (pre mid post : List Ev) (hpre : ∀ e ∈ p
     ∀ f ∈ table.fieldsOfClass lifecycleClass, ¬ PRaceOnField f (program pre mid post) :=
   fun f hf => Race.lockset_sound_program table f (table_disciplined_lifecycle f hf) pre mid post hpre hpost hwf hc
 
-/-- whole-program form of `race_free_partial` -/
-theorem race_free_program_partial (pre mid post : List Ev) (hpre : ∀ e ∈ pre, e.tid = .controller)
-    (hpost : ∀ e ∈ post, e.tid = .controller) (hwf : WF mid) (hc : Conforms table mid) (f : Nat)
-    (hr : PRaceOnField f (program pre mid post)) : f ∈ table.fieldIds skipFlags := by
-  apply Classical.byContradiction
-  intro hf
-  exact Race.lockset_sound_program table f (table_disciplined_partial f hf) pre mid post hpre hpost hwf hc hr
+/-- whole-program form of `race_free`: whatever the controller does before `boot()` creates the
+    thread and after `wait()` has joined it, no execution has a data race on any member -/
+theorem race_free_program (pre mid post : List Ev) (hpre : ∀ e ∈ pre, e.tid = .controller)
+    (hpost : ∀ e ∈ post, e.tid = .controller) (hwf : WF mid) (hc : Conforms table mid) (f : Nat) :
+    ¬ PRaceOnField f (program pre mid post) :=
+  Race.lockset_sound_program table f (table_disciplined f) pre mid post hpre hpost hwf hc
 
 /-- the lifecycle statement for RAII-structured threads (no `Conforms` hypothesis) -/
 theorem race_free_lifecycle_scoped {tr : List Ev} (hwf : WF tr) (hs : ∀ t, Scoped table t [] (proj t tr)) :
     ∀ f ∈ table.fieldsOfClass lifecycleClass, ¬ RaceOnField f tr :=
   race_free_lifecycle hwf (Race.conforms_of_scoped table tr hs)
 
-/-- `race_free`, partial: any race of any interleaving is on one of the six skip flags -/
-theorem race_free_partial {tr : List Ev} (hwf : WF tr) (hc : Conforms table tr) (f : Nat)
-    (hr : RaceOnField f tr) : f ∈ table.fieldIds skipFlags := by
-  apply Classical.byContradiction
-  intro hf
-  exact Race.lockset_sound table f (table_disciplined_partial f hf) hwf hc hr
+/-- **C10, full strength**: no well-formed interleaving of the controller thread and the filtering
+    thread that conforms to the table of the current tree contains a data race -/
+theorem race_free : RaceFree table :=
+  (Race.raceFree_iff table).2 table_disciplined
+
+/-- the same for RAII-structured threads (no `Conforms` hypothesis) -/
+theorem race_free_scoped {tr : List Ev} (hwf : WF tr) (hs : ∀ t, Scoped table t [] (proj t tr)) : ¬ Race tr :=
+  race_free tr hwf (Race.conforms_of_scoped table tr hs)
 
 /-- a member races in some interleaving exactly when it is in the certified list -/
 theorem race_witness_exact (f : Nat) :
